@@ -32,7 +32,7 @@ def run(ctx):
                 ctx.sample({"program": prog})
         # spec -> code: on the sessions TLC explores on the model's universe, the four-call session from the same input
         # and the three-call session from the value the specification parsed
-        uprogs, ukw, sessions, _ = speccode.explore(ctx, focus="all", part=speccode.part_of(ctx, 8 if quick else 16))
+        uprogs, ukw, sessions, _ = speccode.explore(ctx, focus="all", part=speccode.part_of(ctx, 32 if quick else 48))
         def on(camp, prog, con, s, idx):
             camp.roundtrip_from_bytes(prog, con, bytes(s["data"]), ukw)
             if idx["build"]:
